@@ -7,7 +7,7 @@ import os, shutil, tempfile
 from fractions import Fraction as F
 import numpy as np
 import cluster_common as cc
-from core import cn, cq, cb, clist, copt
+from core import cn, cz, cq, cb, clist, copt
 import mpisim
 
 PID = "C14"
@@ -33,7 +33,6 @@ TRUSTED = cc.TRUSTED + [
     "rank 0's RandomState.randint draws are recorded and replayed in the model (k-medoids proposals)"]
 ASSUMPTIONS = ["world size <= number of trajectories, every trajectory has >= 1 frame (the loaders require it)",
                "owner ranks handed to convert_local_indices are < world size",
-               "striped_array_mean is exercised on non-negative data (it is used on squared distances)",
                "equality with the serial run is claimed for tie-free data only (unique farthest frame at every iteration); "
                "with ties the distributed run is still compared with its own model and must satisfy the clustering invariant"]
 EXHAUSTIVE = {"thorough": False}
@@ -153,7 +152,7 @@ def gen_ops(rng):
     P, lens = gen_lens(rng)
     n = sum(lens)
     c = {"kind": "ops", "P": P, "lens": lens, "n": n,
-         "vals": [rng.randint(0, 9) for _ in range(n)],
+         "vals": [rng.randint(-9, 9) if rng.random() < 0.5 else rng.randint(0, 9) for _ in range(n)],
          "ns": [rng.choice([0, 1, 1, 2, 3, 4]) for _ in range(P)],
          "dtype": rng.choice(["float64", "int64"]), "jitter": rng.choice([None, rng.randrange(1000)])}
     if sum(c["ns"]) == 0:
@@ -377,8 +376,8 @@ def coq_check(c, out):
             "CaseLib.list_eqb opair_eqb (map (ctr_ids_mpi %s %s) (seq 0 %s)) (map Some %s)" % (P, lens, cn(n), _pairs(r0["ids_flat"])),
             "CaseLib.list_eqb opair_eqb (map (ctr_pair_mpi %s %s) %s) (map Some %s)" % (P, lens, _pairs(tf), _pairs(r0["ids_pair"])),
             "CaseLib.opt_eqb CaseLib.nl_eqb (assemble_flat %s (stripes %s %s)) (Some %s)" % (P, P, lens, _nl(r0["lens"])),
-            "CaseLib.opt_eqb CaseLib.nl_eqb (assemble 0%%nat %s %s (scatter %s %s %s)) (Some %s)" % (
-                P, lens, P, lens, _nl(c["vals"]), _nl(r0["asm"])),
+            "CaseLib.opt_eqb CaseLib.zl_eqb (assemble 0%%Z %s %s (scatter %s %s %s)) (Some %s)" % (
+                P, lens, P, lens, clist(c["vals"], cz, "Z"), clist(r0["asm"], cz, "Z")),
         ]
         return " && ".join("(%s)" % p for p in parts)
     # io
